@@ -5,6 +5,7 @@ import (
 	"go/ast"
 	"go/token"
 	"go/types"
+	"strings"
 
 	"goblcheck/core"
 )
@@ -259,4 +260,76 @@ func membershipOver(p *core.Program, ctx *core.FuncDecl, e ast.Expr, table *type
 		return isIn
 	}
 	return false
+}
+
+// c11SkipPattern — C11-R2 (bypass clause): a type's own validator must not
+// skip, conditionally or not, a member whose type publishes a pattern: under
+// the skip the library accepts text that the published pattern rejects.
+func c11SkipPattern(c *core.Ctx) {
+	p := c.P
+	patterned := map[*types.TypeName]bool{}
+	for _, fd := range p.AllFuncs() {
+		if fd.Obj.Name() != "JSONSchema" || core.RecvNamed(fd.Obj) == nil {
+			continue
+		}
+		has := false
+		ast.Inspect(fd.Decl.Body, func(n ast.Node) bool {
+			if kv, ok := n.(*ast.KeyValueExpr); ok {
+				if id, ok := kv.Key.(*ast.Ident); ok && id.Name == "Pattern" {
+					has = true
+				}
+			}
+			return true
+		})
+		if has {
+			patterned[core.RecvNamed(fd.Obj).Obj()] = true
+		}
+	}
+	n := 0
+	for _, fd := range p.AllFuncs() {
+		if (fd.Obj.Name() != "Validate" && fd.Obj.Name() != "ValidateWithContext") || fd.Decl.Recv == nil {
+			continue
+		}
+		rel := core.RelPkg(fd.Obj.Pkg().Path())
+		if strings.HasPrefix(rel, "addons/") || strings.HasPrefix(rel, "regimes/") {
+			continue
+		}
+		recvT := core.RecvNamed(fd.Obj)
+		if recvT == nil {
+			continue
+		}
+		info := fd.Pkg.TypesInfo
+		recv := recvVar(fd)
+		for _, sv := range core.StructValidations(info, fd.Decl.Body) {
+			if sv.Target != recv {
+				continue
+			}
+			for _, fr := range sv.Fields {
+				ft := fr.Field.Type()
+				if pt, ok := ft.(*types.Pointer); ok {
+					ft = pt.Elem()
+				}
+				nt, ok := ft.(*types.Named)
+				if !ok || !patterned[nt.Obj()] {
+					continue
+				}
+				n++
+				skip := ""
+				for _, r := range fr.Rules {
+					r = ast.Unparen(r)
+					if core.IsValidationVar(info, r, "Skip") {
+						skip = "validation.Skip"
+					}
+					if call, ok := r.(*ast.CallExpr); ok {
+						if se, ok := call.Fun.(*ast.SelectorExpr); ok && se.Sel.Name == "When" && core.IsValidationVar(info, se.X, "Skip") {
+							skip = "validation.Skip.When(" + types.ExprString(call.Args[0]) + ")"
+						}
+					}
+				}
+				c.Ob("C11-R2", fmt.Sprintf("%s.%s#not-skipped", core.TypeName(recvT), fr.Field.Name()), fr.Call.Pos(), skip == "",
+					fmt.Sprintf("%s lists %s with %s: under it the member's own validator (pattern of %s) is not applied, so the library accepts text the published pattern rejects", fd.Name(), fr.Field.Name(), skip, core.TypeName(nt)))
+			}
+		}
+	}
+	c.Extra("patterned_members_in_own_validators", n)
 }
